@@ -85,6 +85,47 @@ def _identity_elt(target: ast.expr, elt: ast.expr) -> bool:
     return False
 
 
+def _memo_binding(fn: ast.FunctionDef, name: str, binds, roots):
+    """`x = self.S.get(key)` (or self.S[key]) next to `x = compute(..)` and a store `self.S[key] = x`: x is either computed now or
+    the object computed by an EARLIER call under an equal key.  That is the value computed now only if the key carries, faithfully
+    (ghverif/memo.py), every parameter the computation uses; otherwise the object belongs to another call's arguments."""
+    from .memo import _faithful_names, _param_deps
+
+    fetched, computed = [], []
+    for (v, pos, stmt), r in zip(binds, roots):
+        store = None
+        if isinstance(v, ast.Call) and isinstance(v.func, ast.Attribute) and v.func.attr == "get" and v.args and attr_chain(v.func.value):
+            store, key = attr_chain(v.func.value), v.args[0]
+        elif isinstance(v, ast.Subscript) and attr_chain(v.value) and isinstance(v.ctx, ast.Load):
+            store, key = attr_chain(v.value), v.slice
+        if store is not None and store.startswith("self."):
+            fetched.append((store, key, stmt))
+        else:
+            computed.append((v, r, stmt))
+    if len(fetched) != 1 or len(computed) != 1:
+        return None
+    store, key, fstmt = fetched[0]
+    filled = any(isinstance(a, ast.Assign) and any(isinstance(t, ast.Subscript) and attr_chain(t.value) == store for t in a.targets) and isinstance(a.value, ast.Name) and a.value.id == name
+                 for a in walk_no_nested(fn))
+    if not filled:
+        return None
+    deps = _param_deps(fn, faithful=True)
+    params = set(_params(fn))
+    carried = set()
+    for n_ in _faithful_names(key):
+        carried |= deps.get(n_, {n_} if n_ in params else set())
+    v, r, cstmt = computed[0]
+    used = set()
+    loose = _param_deps(fn, faithful=False)
+    for x in ast.walk(v):
+        if isinstance(x, ast.Name) and isinstance(x.ctx, ast.Load):
+            used |= (loose.get(x.id, set()) | ({x.id} if x.id in params else set()))
+    missing = sorted(p_ for p_ in used if p_ not in carried and p_ not in ("self", "cls"))
+    if missing:
+        return ("broken", fstmt, f"'{name}' may be the object {store} keeps from an earlier call: the key {ast.unparse(key)[:40]} does not carry {missing} faithfully, so it can belong to other arguments")
+    return r
+
+
 def root_of(fn: ast.FunctionDef, expr: ast.expr, depth: int = 8, _seen=None) -> Tuple:
     if depth <= 0:
         return ("unknown", expr, "definition chain too deep")
@@ -126,6 +167,9 @@ def root_of(fn: ast.FunctionDef, expr: ast.expr, depth: int = 8, _seen=None) -> 
             return ("unknown", binds[0][2], f"parameter '{expr.id}' is rebound to something else")
         if len(keys) == 1:
             return roots[0]
+        memo = _memo_binding(fn, expr.id, binds, roots)
+        if memo is not None:
+            return memo
         return ("unknown", binds[0][2], f"'{expr.id}' has bindings with different origins")
     if isinstance(expr, ast.Attribute):
         ch = attr_chain(expr)
